@@ -19,6 +19,11 @@ def run_entry(m):
     res = dict(kind=m["kind"], prop=m["prop"], name=m["name"], why=m["why"])
     try:
         subprocess.run(["git", "-C", "/repo", "worktree", "add", "-q", "--detach", wt, "HEAD"], check=True, capture_output=True)
+        if m.get("base"):
+            # the entry is a change on top of one of the behaviour-preserving refactorings of /verif/refactors
+            a = subprocess.run(["git", "-C", wt, "apply", os.path.join(here, m["base"])], capture_output=True, text=True)
+            if a.returncode != 0:
+                res["status"] = "skipped (base patch does not apply)"; return res
         path = os.path.join(wt, m["file"])
         src = open(path).read()
         if src.count(m["old"]) != 1:
